@@ -489,7 +489,38 @@ def rule_m7(ctx) -> None:
     ctx.require(n_ok >= 3, "fewer than 3 molecule writers found in the rule layer (%d)" % n_ok)
 
 
+def rule_m8(ctx) -> None:
+    """The merge machinery edits molecules in place (hydrogen fixing on the boundary atoms, M4).  Every Compound must
+    therefore own its molecule: a function that hands out RDKit molecules must not be memoised."""
+    ctx.rule("C09-M8", "no memoised function of the merge machinery returns an RDKit molecule (molecules are edited in place)", 1)
+    prog = ctx.prog
+    MOL_MAKERS = {"MolFromSmiles", "MolFromSmarts", "MolFromMolBlock", "RWMol", "GetMol", "Mol", "AddHs", "RemoveHs"}
+    editors = []
+    for q, f in prog.functions.items():
+        if f.module.name in MACHINERY:
+            for c in calls(f):
+                if isinstance(c.func, ast.Attribute) and c.func.attr in ("SetNumExplicitHs", "SetFormalCharge", "SetNoImplicit", "SetIsotope", "SetAtomMapNum", "SetNumRadicalElectrons"):
+                    editors.append((f, c))
+    ctx.instance("C09-M8", "in-place atom edits in the merge machinery: %d call(s)" % len(editors), editors[0][0].loc(editors[0][1]) if editors else "", ok=True, nontrivial=bool(editors))
+    for q, f in sorted(prog.functions.items()):
+        if f.module.name not in MACHINERY:
+            continue
+        decos = [unparse(d.func if isinstance(d, ast.Call) else d).split(".")[-1] for d in getattr(f.node, "decorator_list", [])]
+        if not any(d in ("lru_cache", "cache", "cached", "memoize", "memoized") for d in decos):
+            continue
+        makes = [c for r in own_nodes(f.node) if isinstance(r, ast.Return) and r.value is not None for c in ast.walk(r.value) if isinstance(c, ast.Call) and unparse(c.func).split(".")[-1] in MOL_MAKERS]
+        names = [r.value.id for r in own_nodes(f.node) if isinstance(r, ast.Return) and isinstance(r.value, ast.Name)]
+        for nm in names:
+            for _st, v, _i in assignments_to(f, nm):
+                makes += [c for c in ast.walk(v) if isinstance(c, ast.Call) and unparse(c.func).split(".")[-1] in MOL_MAKERS]
+        bad = bool(makes) and bool(editors)
+        ctx.instance("C09-M8", "%s is memoised and returns a molecule: %s" % (q.split("synrbl.", 1)[-1], bool(makes)), f.loc(), ok=not bad)
+        if bad:
+            ctx.finding("C09-M8", "%s:memoised-molecule" % q.split("synrbl.", 1)[-1], f.loc(), "%s is memoised and returns an RDKit molecule; %s edits atoms of compound molecules in place (%s), so every later Compound built from the same SMILES starts from the edited molecule" % (f.name, editors[0][0].qualname.split(".")[-2] + "." + editors[0][0].name, unparse(editors[0][1])[:40]))
+
+
 def check(ctx) -> None:
+    rule_m8(ctx)
     rule_m7(ctx)
     rule_m6(ctx)
     rule_m1(ctx)
